@@ -339,6 +339,12 @@ def build_fn(repo, blk, log, abstract=()):
         else:
             raise GenError('unknown directive //@%s' % word)
 
+    # the function was rewritten since its proof was written (more than three changed lines): hints, invariants and the
+    # SMT behaviour belong to another body -- a failure here is a failed proof attempt, not a verdict by itself
+    nchg = changed_lines(rel, item_id, text)
+    if nchg is not None and nchg > MAX_CHANGED_LINES and not is_abstract and os.environ.get('VERIF_REWRITE_RULE', '1') == '1':
+        lost.append('body rewritten: %d lines differ from the version the proof was written for' % nchg)
+    log.setdefault('changed_lines', {})[item_id] = nchg
     # a loop the template has no invariant for: whatever follows it cannot be proved -- a failure in this function is a
     # failed proof attempt (reported as undecided unless a lane with concrete inputs confirms it)
     unannotated = [k for k in range(1, len(loops) + 1) if k not in annotated_loops]
@@ -464,6 +470,38 @@ def _enclosing_close(s, pos):
             return i
         i += 1
     raise GenError('no enclosing block')
+
+
+MAX_CHANGED_LINES = 6       # up to three changed lines (3 removed + 3 added) still count as "the function the proof was written for"
+_LOCK = None
+
+
+def _body_lock():
+    global _LOCK
+    if _LOCK is None:
+        try:
+            _LOCK = json.load(open(os.path.join(os.path.dirname(os.path.dirname(os.path.abspath(__file__))), 'units', 'bodies.lock.json')))
+        except Exception:
+            _LOCK = {}
+    return _LOCK
+
+
+def _norm_lines(text):
+    return [' '.join(l.split()) for l in text.split('\n') if l.strip() and not l.strip().startswith('//')]
+
+
+def changed_lines(rel, item_id, text):
+    """number of lines by which `text` differs from the version the proofs were written for (None: not locked)"""
+    old = _body_lock().get('%s::%s' % (rel, item_id))
+    if old is None:
+        return None
+    import difflib
+    new = _norm_lines(text)
+    n = 0
+    for tag, a0, a1, b0, b1 in difflib.SequenceMatcher(None, old, new, autojunk=False).get_opcodes():
+        if tag != 'equal':
+            n += (a1 - a0) + (b1 - b0)
+    return n
 
 
 def apply_idiom(ed, text, base, body_rel, loops, rest, item_id, log, rel, src, raw=None, tline=None):
